@@ -98,10 +98,10 @@ func judgeC10(c *Case, tr *hx.Trace, w *ref.World) []Verdict {
 
 func C10(rep *ev.Reporter, tier string) {
 	bud := NewBudget(150 * time.Second)
-	maxLen := 2
+	maxLen := 3
 	if tier == "thorough" {
 		bud = NewBudget(9 * time.Minute)
-		maxLen = 3
+		maxLen = 4
 	}
 	world := func() *ref.World {
 		w := ref.NewWorld()
